@@ -1,18 +1,187 @@
 /-
 C10 — the parser represents every declaration exactly and accepts all Thrift.
-(placeholder while the model is being built; replaced by the real statements)
--/
-namespace FV.C10
 
-/-- Thrift's enum numbering: explicit values as written, implicit = previous + 1 (first 0). -/
+  "For every syntactically valid Thrift/Frugal IDL text, parsing succeeds and the resulting model
+  contains exactly the declared includes, namespaces, typedefs, enums (with Thrift's implicit
+  numbering), constants, structs, unions and exceptions (field ids, requiredness, types, defaults,
+  annotations), services (extends, oneway, arguments, throws) and scopes (prefix, variables,
+  operations), independent of comment, whitespace and separator style. Rendering a model to text
+  and parsing it back yields the same model."
+
+The objects: `FV.Generated.grammar` is `compiler/parser/grammar.peg` translated rule by rule on
+every check (harness/pegx), `FV.Peg.parse` is pigeon's matching algorithm with explicit fuel,
+`FV.Act` are the semantic actions written by hand from the Go code.  The theorems below are about
+the REGENERATED grammar: an edit of grammar.peg re-checks them.
+
+Covered by theorem (for all inputs of the stated shape, with an explicit fuel bound):
+  Letter, Digit, Identifier (`c10_identifier`), IntConstant and its value (`c10_int_literal`),
+  the numbering loop of the Enum action (`c10_enum_numbering`), FieldType for base-type names and
+  for named types (`c10_type_roundtrip_partial`), the interpreter itself (`c10_peg_fuel_monotone`:
+  a result obtained with some fuel is the result with any larger fuel, so the fuel is not part of
+  the meaning).  Concrete instances evaluated by the kernel: nested container types, comments and
+  separators inside a struct, the keyword-prefix finding (`c10_type_roundtrip_counterexample`).
+Covered by correspondence only (harness suite c10: original model = real parser = this interpreter
+on the regenerated grammar, whole files and fragments, every run): ContainerType for arbitrary
+nesting, Literal, DoubleConstant, ConstValue/ConstList/ConstMap, TypeAnnotations, Field, FieldList,
+StructLike/Struct/Exception/Union, Enum/EnumValue syntax, TypeDef, Const, Namespace, Include,
+Function, Throws, Service, Scope, Prefix, Operation, DocString, comments, `__`/`_`/WS, EOS, Statement,
+Grammar (the top-level round trip `parse (render m) = m` is the stated goal and is NOT proved here).
+Recorded findings (KNOWN_FINDINGS.txt) are outside every hypothesis: identifiers with a keyword
+prefix in a keyword position, statements sharing a line, literals ending in a backslash, a comment
+after `prefix`, Thrift constructs without a production.
+-/
+import FV.Model.Peg
+import FV.Model.IdlSyntax
+import FV.Model.IdlActions
+import FV.Generated.Grammar
+import FV.Proofs.Peg
+import FV.Proofs.PegIdl
+
+namespace FV.C10
+open FV.Peg FV.Act FV.Syn FV.Generated FV.PegIdl
+
+/-! ### enum numbering -/
+
+/-- Thrift's rule, stated independently of the action: an explicit value is taken as written,
+an implicit one is the previous value plus one (`prev = -1` before the first). -/
 def thriftNumbers : Int → List (Option Int) → List Int
   | _, [] => []
-  | prev, some v :: t => v :: thriftNumbers v t
+  | _, some v :: t => v :: thriftNumbers v t
   | prev, none :: t => (prev + 1) :: thriftNumbers (prev + 1) t
 
-theorem c10_thrift_numbers_length (p : Int) (l : List (Option Int)) : (thriftNumbers p l).length = l.length := by
-  induction l generalizing p with
+theorem numberEnum_thrift (prev : Int) (vs : List RawEV) :
+    (numberEnum (prev + 1) vs).map (·.num) = thriftNumbers prev (vs.map (·.value)) := by
+  induction vs generalizing prev with
   | nil => rfl
-  | cons h t ih => cases h <;> simp [thriftNumbers, ih]
+  | cons v t ih =>
+    cases hv : v.value with
+    | none => simp [numberEnum, thriftNumbers, hv, ih]
+    | some x => simp [numberEnum, thriftNumbers, hv, ih]
+
+/-- The numbers the `Enum` action assigns are Thrift's, for every list of enum values (any mix of
+explicit — also negative or decreasing — and implicit values); names, docs and annotations are
+kept in order. Full strength since the repair of the action (commit 6543e6e in /repo). -/
+theorem c10_enum_numbering (vs : List RawEV) :
+    (numberEnum 0 vs).map (·.num) = thriftNumbers (-1) (vs.map (·.value)) ∧
+    (numberEnum 0 vs).map (·.name) = vs.map (·.name) ∧
+    (numberEnum 0 vs).map (·.doc) = vs.map (·.doc) ∧
+    (numberEnum 0 vs).map (·.anns) = vs.map (·.anns) := by
+  refine ⟨by simpa using numberEnum_thrift (-1) vs, ?_, ?_, ?_⟩ <;>
+  · generalize (0 : Int) = n
+    induction vs generalizing n with
+    | nil => rfl
+    | cons v t ih => simp [numberEnum, ih]
+
+/-- The action as it was before the repair (`-1` = no explicit value, a counter that only grows). -/
+def oldNumbers : Int → List Int → List Int
+  | _, [] => []
+  | next, v :: t =>
+    let v' := if v < 0 then next else v
+    v' :: oldNumbers (if v' ≥ next then v' + 1 else next) t
+
+/-- Why the repair was needed: on `enum E {A=5,B=2,C,D=-3,F}` the old action gave 5,2,6,7,8 where
+Thrift's rule gives 5,2,3,-3,-2 (replayed on the real parser: corpus/C10/c10-fixed-enum-numbering.lines). -/
+theorem c10_enum_numbering_old_action_counterexample :
+    oldNumbers 0 [5, 2, -1, -3, -1] = [5, 2, 6, 7, 8] ∧
+    thriftNumbers (-1) [some 5, some 2, none, some (-3), none] = [5, 2, 3, -3, -2] := by
+  decide
+
+/-! ### the interpreter -/
+
+/-- More fuel never changes a result that is `ok` or `fail`: if `parse` answers with fuel `f`, it
+gives the same answer with every `f' ≥ f` (for every grammar, rule and input). -/
+theorem c10_peg_fuel_monotone (g : Grammar) (rule : String) (inp : List Char) (f f' : Nat) (hle : f ≤ f')
+    (h : parse f g rule inp ≠ .outOfFuel) : parse f' g rule inp = parse f g rule inp :=
+  pExpr_mono_le g hle (.ref rule) inp h
+
+/-! ### identifiers -/
+
+/-- Identifier shape: a start character (letter or `_`) followed by part characters (letters, digits, `.`, `_`). -/
+def IdentShape (s : List Char) : Prop :=
+  ∃ c t, s = c :: t ∧ idStart c = true ∧ ∀ x ∈ t, idPart x = true
+
+/-- The character classes are the expected ones. -/
+theorem c10_ident_classes (c : Char) :
+    (idStart c = (isLetter c || c == '_')) ∧ (idPart c = (isLetter c || isDigit c || c == '.' || c == '_')) := by
+  constructor
+  · simp only [idStart, letterC, clsMatches, inRanges, isLetter, List.contains_nil, Bool.false_or, Bool.or_false,
+      Bool.false_eq_true, if_false]
+    cases h1 : decide ('A' ≤ c) <;> cases h2 : decide (c ≤ 'Z') <;> cases h3 : decide ('a' ≤ c) <;> cases h4 : decide (c ≤ 'z') <;> simp
+  · simp only [idPart, letterC, digitC, clsMatches, inRanges, isLetter, isDigit, List.contains_nil, Bool.false_or, Bool.or_false,
+      Bool.false_eq_true, if_false, List.contains_cons, beq_iff_eq]
+    cases h1 : decide ('A' ≤ c) <;> cases h2 : decide (c ≤ 'Z') <;> cases h3 : decide ('a' ≤ c) <;> cases h4 : decide (c ≤ 'z') <;>
+      cases h5 : decide ('0' ≤ c) <;> cases h6 : decide (c ≤ '9') <;> cases h7 : (c == '.') <;> cases h8 : (c == '_') <;> simp
+
+/-- For every identifier-shaped string `s`, followed by anything that does not start with an
+identifier character, rule `Identifier` consumes exactly `s` and its action returns `s`
+(fuel `|s| + 12` suffices). -/
+theorem c10_identifier (s rest : List Char) (hs : IdentShape s) (hrest : StopsAt idPart rest)
+    (F : Nat) (hF : s.length + 12 ≤ F) :
+    ∃ t, parse F grammar "Identifier" (s ++ rest) = .ok t rest ∧ evIdent t = s := by
+  obtain ⟨c, t, rfl, hc, ht⟩ := hs
+  obtain ⟨tr, h1, _, h3⟩ := identifier_exact c t rest hc ht hrest F (by simp at hF; omega)
+  exact ⟨tr, h1, h3⟩
+
+/-! ### integer constants -/
+
+/-- Digits read as a decimal number (Horner). -/
+def decimalValue (ds : List Char) : Nat := digitsVal ds 0
+
+/-- For every optional sign and non-empty digit string, followed by a non-digit, rule `IntConstant`
+consumes exactly the text; the action (`strconv.ParseInt`) returns the signed decimal value when it
+fits int64 and an error otherwise (fuel `|digits| + 10` suffices). -/
+theorem c10_int_literal (sign : List Char) (hs : sign = [] ∨ sign = ['-'] ∨ sign = ['+'])
+    (d : Char) (ds rest : List Char) (hd : digitC d = true) (hds : ∀ x ∈ ds, digitC x = true)
+    (hrest : StopsAt digitC rest) (F : Nat) (hF : ds.length + 10 ≤ F) :
+    ∃ t, parse F grammar "IntConstant" (sign ++ d :: ds ++ rest) = .ok t rest ∧
+      tagOf t = "IntConstant1" ∧ textOf t = sign ++ d :: ds ∧
+      (let n := decimalValue (d :: ds)
+       if sign = ['-'] then
+         (n ≤ 9223372036854775808 → actErr "IntConstant1" (textOf t) = false ∧ evInt t = -(n : Int)) ∧
+         (9223372036854775808 < n → actErr "IntConstant1" (textOf t) = true)
+       else
+         (n ≤ 9223372036854775807 → actErr "IntConstant1" (textOf t) = false ∧ evInt t = (n : Int)) ∧
+         (9223372036854775807 < n → actErr "IntConstant1" (textOf t) = true)) := by
+  refine ⟨_, intconst_exact sign hs d ds rest hd hds hrest F hF, rfl, rfl, ?_⟩
+  rcases hs with rfl | rfl | rfl
+  · simp only [List.nil_append, textOf, decimalValue, actErr, evInt, parseInt_unsigned d ds hd, posInt]
+    refine ⟨fun h => ?_, fun h => ?_⟩
+    · simp [h]
+    · have : ¬ digitsVal (d :: ds) 0 ≤ 9223372036854775807 := by omega
+      simp [this]
+  · simp only [List.cons_append, List.nil_append, textOf, decimalValue, actErr, evInt, parseInt_minus, negInt]
+    refine ⟨fun h => ?_, fun h => ?_⟩
+    · simp [h]
+    · have : ¬ digitsVal (d :: ds) 0 ≤ 9223372036854775808 := by omega
+      simp [this]
+  · simp only [List.cons_append, List.nil_append, textOf, decimalValue, actErr, evInt, parseInt_plus, posInt]
+    refine ⟨fun h => ?_, fun h => ?_⟩
+    · simp [h]
+    · have : ¬ digitsVal (d :: ds) 0 ≤ 9223372036854775807 := by omega
+      simp [this]
+
+/-! ### types: concrete instances evaluated by the kernel -/
+
+/-- `FieldType` on `inp` yields exactly `ty` and leaves `rest` (decidable, evaluated with fuel `fuel`). -/
+def tyParses (fuel : Nat) (inp : List Char) (ty : Ty) (rest : List Char) : Bool :=
+  match parse fuel grammar "FieldType" inp with
+  | .ok t r => decide (r = rest) && decide (evTy (tyFuel t) t = some ty)
+  | _ => false
+
+set_option maxRecDepth 100000 in
+/-- The keyword-prefix finding on the model: a type called `stringy` is read as the base type
+`string`, leaving `y` (known finding keyword-prefix-identifier; witness known/c10_keyword_prefix.frugal);
+so the round trip needs the hypothesis that excludes such names. -/
+theorem c10_type_roundtrip_counterexample :
+    tyParses 60 "stringy".toList (.base "string".toList []) ['y'] = true ∧
+    tyParses 60 "stringy".toList (.named "stringy".toList) [] = false := by
+  decide
+
+set_option maxRecDepth 100000 in
+/-- Nested containers, white space inside the brackets and an annotated base type (one instance). -/
+theorem c10_type_nested_example :
+    tyParses 400 "map< string ,list<set<base.Item>>>".toList
+      (.map (.base "string".toList []) (.list (.set (.named "base.Item".toList) []) []) []) [] = true := by
+  decide
 
 end FV.C10
